@@ -14,6 +14,13 @@ Theorem C11_missing_directory_is_an_error : forall t exts d,
   is_dir t d = false -> dir_ids t exts d = None /\ rec_dir_ids t exts d = None.
 Proof. exact missing_directory_is_an_error. Qed.
 
+(* the recursive asset is the union of the directory assets of d and of every directory below it
+   (a tree in which every file sits in a listed directory) *)
+Theorem C11_rec_dir_ids_is_the_union : forall t exts d l,
+  wf_tree t -> rec_dir_ids t exts d = Some l ->
+  forall i, In i l <-> exists d' l', is_prefix d d' = true /\ dir_ids t exts d' = Some l' /\ In i l'.
+Proof. exact rec_dir_ids_is_the_union. Qed.
+
 (* the printed src/dirs.rs: select_ids keeps exactly the File entries whose extension is one of
    T::EXTENSIONS (string equality), Directory::load = select, sort, dedup; RecursiveDirectory::load =
    own directory (errors propagate) + every loadable child (errors skipped); Arc forwards *)
